@@ -46,15 +46,15 @@ def whenNs (pt : List Nat) : Int := int64OfU64 (beNat (pt.take 8)) * 1000000000
 /-- **What acceptance means.** If `validateToken` accepts, then: the AEAD nonce is the presented
 destination connection ID followed by the first four token bytes (24 bytes in all); the rest of
 the token opens under that nonce with the additional data of the PRESENTED source connection ID,
-address and port; the result is the plaintext's tail; and the int64 `abs(now.Sub(when))` is at
-most five seconds. -/
+address and port; the result is the plaintext's tail; and the (saturating) `now.Sub(when)` lies
+within ± five seconds. -/
 theorem validate_accept_spec (a : AEAD) (now : Int) (token src dst addr : List Nat) (port : Nat)
     (od : List Nat) (h : validateToken a now token src dst addr port = VR.accept od) :
     ∃ ad pt, additionalData src addr port = some ad ∧
       (dst ++ token.take 4).length = 24 ∧ 4 ≤ token.length ∧
       a.aeadOpen (dst ++ token.take 4) (token.drop 4) ad = some pt ∧
       8 ≤ pt.length ∧ od = pt.drop 8 ∧
-      absI64 (satSub now (whenNs pt)) ≤ 5000000000 := by
+      satSub now (whenNs pt) ≤ 5000000000 ∧ -5000000000 ≤ satSub now (whenNs pt) := by
   unfold validateToken at h
   split at h <;> try (simp at h; done)
   rename_i h1
@@ -72,45 +72,29 @@ theorem validate_accept_spec (a : AEAD) (now : Int) (token src dst addr : List N
   · simpa [nonceSize] using h2
   · simp [nonceSize, maxConnIDLen] at h1; omega
   · simp [validityNs] at h4
-    simpa [whenNs] using h4
+    simp only [whenNs]
+    omega
 
-/-- The literal freshness clause: an accepted token's timestamp is within 5 s of `now`. -/
-def TokenFreshStatement : Prop :=
-  ∀ (a : AEAD) (now : Int) (token src dst addr : List Nat) (port : Nat) (od : List Nat),
-    validateToken a now token src dst addr port = VR.accept od →
-    ∃ ad pt, additionalData src addr port = some ad ∧
-      a.aeadOpen (dst ++ token.take 4) (token.drop 4) ad = some pt ∧
-      now - whenNs pt ≤ 5000000000 ∧ whenNs pt - now ≤ 5000000000
-
-/-- Freshness holds whenever `now − when` is representable without hitting the saturation
-value `MinInt64` (i.e. the token is less than ~292 years "from the future"). -/
-theorem tokenFresh_holds_partial (a : AEAD) (now : Int) (token src dst addr : List Nat) (port : Nat)
+/-- **Freshness (full).** An accepted token's timestamp is within 5 s of `now`, for every
+`now` and every timestamp (the two-sided comparison also rejects the saturated differences). -/
+theorem tokenFresh_holds (a : AEAD) (now : Int) (token src dst addr : List Nat) (port : Nat)
     (od : List Nat) (h : validateToken a now token src dst addr port = VR.accept od) :
     ∃ ad pt, additionalData src addr port = some ad ∧
       a.aeadOpen (dst ++ token.take 4) (token.drop 4) ad = some pt ∧
-      (now - whenNs pt > -9223372036854775808 →
-        now - whenNs pt ≤ 5000000000 ∧ whenNs pt - now ≤ 5000000000) := by
-  obtain ⟨ad, pt, had, _, _, hpt, _, _, habs⟩ := validate_accept_spec a now token src dst addr port od h
+      now - whenNs pt ≤ 5000000000 ∧ whenNs pt - now ≤ 5000000000 := by
+  obtain ⟨ad, pt, had, _, _, hpt, _, _, hle, hge⟩ := validate_accept_spec a now token src dst addr port od h
   refine ⟨ad, pt, had, hpt, ?_⟩
-  intro hrange
-  unfold absI64 satSub at habs
-  simp only at habs
-  split at habs <;> split at habs <;> (try split at habs) <;> (try split at habs) <;> omega
+  unfold satSub at hle hge
+  simp only at hle hge
+  split at hle <;> (try split at hle) <;> simp_all <;> omega
 
-/-- An AEAD that accepts everything as the 8-byte plaintext `80 00 00 00 00 00 00 00`
-(timestamp 2^40 seconds, ~34865 years) — enough to exhibit the arithmetic corner. -/
+/-- An AEAD that accepts everything as the 8-byte plaintext `00 00 01 00 00 00 00 00`
+(timestamp 2^40 seconds, ~34865 years): the witness of the former defect
+(`abs(MinInt64) < 0`), kept as a regression. -/
 private def farFuture : AEAD := { aeadSeal := fun _ _ _ => [], aeadOpen := fun _ _ _ => some [0, 0, 1, 0, 0, 0, 0, 0] }
 
-/-- Finding `retry-token-far-future`: `abs(MinInt64)` is negative, so a timestamp far enough in
-the future passes the `d > 5s` test. (Reproduced on the real code with the real AEAD by the
-harness: a token issued in 2062 is accepted in 1770.) -/
-theorem tokenFresh_full_false : ¬ TokenFreshStatement := by
-  intro h
-  obtain ⟨ad, pt, _, hpt, h1, h2⟩ := h farFuture 0 [0, 0, 0, 0] [] (List.replicate 20 0) [1, 2, 3, 4] 80 []
-    (by decide)
-  simp [farFuture] at hpt
-  subst hpt
-  revert h2
+/-- The old witness is now rejected. -/
+example : validateToken farFuture 0 [0, 0, 0, 0] [] (List.replicate 20 0) [1, 2, 3, 4] 80 = VR.reject := by
   decide
 
 /-! ### binding under ideal-AEAD hypotheses -/
@@ -131,7 +115,7 @@ theorem token_binding (a : AEAD)
     (hp : port < 65536) (hp' : port' < 65536)
     (hv : validateToken a now token src' dst' addr' port' = VR.accept od') :
     src' = src ∧ addr' = addr ∧ port' = port ∧ dst' = newDst ∧ od' = od := by
-  obtain ⟨ad', pt, had', hlen, _, hopen, hpt8, hod, _⟩ := validate_accept_spec a now token src' dst' addr' port' od' hv
+  obtain ⟨ad', pt, had', hlen, _, hopen, hpt8, hod, _, _⟩ := validate_accept_spec a now token src' dst' addr' port' od' hv
   unfold makeToken at hmk
   split at hmk <;> simp at hmk
   rename_i ad had
